@@ -1,5 +1,259 @@
+import SamVerif.Model.StdMap
+import SamVerif.Model.StdSet
+import SamVerif.Model.StdList
 import Driver.Util
-/-! Line-protocol driver for property C18 (model side). Not implemented yet. -/
+/-! Protocol `stdops` (C18): replays collection operations through the models of
+`std/map.sam`, `std/set.sam`, `std/list.sam`.  One answer line per op line; the answers have the
+same text the generated samlang driver program prints (see vlib/c18.py). Keys/elements are boxed
+`Int`s compared by `this.value - other.value` in 32 bits. -/
+namespace Driver.C18
+open SamVerif Driver
+
+abbrev M := StdMap.Tree Int Int
+abbrev S := StdSet.STree Int
+abbrev L := StdList.SList Int
+
+def cmp : Int → Int → Int := StdMap.boxedCompare
+
+structure St where
+  maps : List M := [.empty, .empty, .empty, .empty]
+  sets : List S := [.empty, .empty, .empty, .empty]
+  lists : List L := [.nil, .nil, .nil, .nil]
+  dead : Bool := false
+
+def showI (i : Int) : String := toString i
+
+partial def dumpM : M → String
+  | .empty => "E"
+  | .leaf k v => s!"(L {k} {v})"
+  | .node h k v l r => s!"(N {h} {k} {v} {dumpM l} {dumpM r})"
+
+partial def dumpS : S → String
+  | .empty => "E"
+  | .leaf v => s!"(L {v})"
+  | .node h v l r => s!"(N {h} {v} {dumpS l} {dumpS r})"
+
+def dumpL (l : L) : String := "[" ++ ",".intercalate ((StdList.toList l).map showI) ++ "]"
+
+def reg (s : String) : Nat := (s.drop 1).toString.toNat!
+
+def getM (st : St) (r : String) : M := st.maps.getD (reg r) .empty
+def getS (st : St) (r : String) : S := st.sets.getD (reg r) .empty
+def getL (st : St) (r : String) : L := st.lists.getD (reg r) .nil
+def setM (st : St) (r : String) (m : M) : St := { st with maps := st.maps.set (reg r) m }
+def setS (st : St) (r : String) (m : S) : St := { st with sets := st.sets.set (reg r) m }
+def setL (st : St) (r : String) (m : L) : St := { st with lists := st.lists.set (reg r) m }
+
+def int (s : String) : Int := s.toInt!
+
+/-- element predicate codes -/
+def pred (p : String) (c : Int) (x : Int) : Bool :=
+  match p with
+  | "lt" => x < c
+  | "ge" => x ≥ c
+  | "odd" => Int.tmod x 2 != 0
+  | "all" => true
+  | _ => false
+
+/-- binding predicate codes -/
+def predKV (p : String) (c : Int) (k v : Int) : Bool :=
+  match p with
+  | "klt" => k < c
+  | "kge" => k ≥ c
+  | "kodd" => Int.tmod k 2 != 0
+  | "vlt" => v < c
+  | "all" => true
+  | _ => false
+
+def updF (mode : String) (c : Int) (d : Option Int) : Option Int :=
+  match mode with
+  | "0" => none
+  | "1" => some c
+  | "2" => d.map (fun v => Int.tmod (v + c) 1000)
+  | _ => match d with
+    | none => some c
+    | some _ => none
+
+def cunF (mode : String) (_k v1 v2 : Int) : Option Int :=
+  match mode with
+  | "0" => some (Int.tmod (v1 + v2) 1000)
+  | "1" => none
+  | "3" => some v1
+  | _ => some v2
+
+def mrgF (mode : String) (_k : Int) (a b : Option Int) : Option Int :=
+  match mode with
+  | "0" => match a with
+    | some x => some x
+    | none => b
+  | "1" => match a, b with
+    | some x, some y => some (Int.tmod (x + y) 1000)
+    | _, _ => none
+  | _ => match a, b with
+    | some _, some _ => none
+    | some x, none => some x
+    | none, b => b
+
+def smapF (mode : String) (c : Int) (x : Int) : Int :=
+  match mode with
+  | "0" => x + c
+  | "1" => 0 - x
+  | _ => c
+
+def showOptKV : Option (Int × Int) → String
+  | none => "none"
+  | some (k, v) => s!"some {k} {v}"
+
+def showOptI : Option Int → String
+  | none => "none"
+  | some v => s!"some {v}"
+
+def showB (b : Bool) : String := if b then "true" else "false"
+
+def fuelOf (a b : Nat) : Nat := (a + 2) * (b + 2) + 16
+
+def die (st : St) : St × String := ({ st with dead := true }, "panic")
+
+/-- result of a possibly panicking map operation stored into a register -/
+def storeM (st : St) (d : String) (r : Option M) : St × String :=
+  match r with
+  | none => die st
+  | some m => (setM st d m, dumpM m)
+
+def storeS (st : St) (d : String) (r : Option S) : St × String :=
+  match r with
+  | none => die st
+  | some m => (setS st d m, dumpS m)
+
+def storeL (st : St) (d : String) (l : L) : St × String := (setL st d l, dumpL l)
+
+def step (st : St) (line : String) : St × String :=
+  if line.trimAscii.toString == "reset" then ({}, "ok") else
+  if st.dead then (st, "dead") else
+  match words line with
+  -- maps
+  | ["mins", d, s, k, v] => storeM st d (StdMap.insert cmp (getM st s) (int k) (int v))
+  | ["mrem", d, s, k] => storeM st d (StdMap.remove cmp (getM st s) (int k))
+  | ["mget", s, k] => (st, showOptI (StdMap.get cmp (getM st s) (int k)))
+  | ["mhas", s, k] => (st, showB (StdMap.containsKey cmp (getM st s) (int k)))
+  | ["mupd", d, s, k, mode, c] =>
+    storeM st d (StdMap.update cmp (updF mode (int c)) (getM st s) (int k))
+  | ["muni", d, a, b] =>
+    let x := getM st a; let y := getM st b
+    match StdMap.union cmp (fuelOf (StdMap.nodes x) (StdMap.nodes y)) x y with
+    | none => (st, "oof")
+    | some r => storeM st d r
+  | ["mcun", d, a, b, mode] =>
+    let x := getM st a; let y := getM st b
+    match StdMap.customizedUnion cmp (cunF mode) (fuelOf (StdMap.nodes x) (StdMap.nodes y)) x y with
+    | none => (st, "oof")
+    | some r => storeM st d r
+  | ["mmrg", d, a, b, mode] =>
+    let x := getM st a; let y := getM st b
+    match StdMap.merge cmp (mrgF mode) (fuelOf (StdMap.nodes x) (StdMap.nodes y)) x y with
+    | none => (st, "oof")
+    | some r => storeM st d r
+  | ["mspl", d1, d2, s, k] =>
+    match StdMap.split cmp (getM st s) (int k) with
+    | none => die st
+    | some (l, pres, r) =>
+      (setM (setM st d1 l) d2 r, s!"{dumpM l} {showOptI pres} {dumpM r}")
+  | ["mfil", d, s, p, c] => storeM st d (StdMap.filter (predKV p (int c)) (getM st s))
+  | ["mpar", d1, d2, s, p, c] =>
+    match StdMap.partition (predKV p (int c)) (getM st s) with
+    | none => die st
+    | some (a, b) => (setM (setM st d1 a) d2 b, s!"{dumpM a} {dumpM b}")
+  | ["mfold", s] =>
+    (st, StdMap.fold (fun (acc : String) k v => acc ++ s!"{k}:{v};") (getM st s) "")
+  | ["mmin", s] => (st, showOptKV (StdMap.min (getM st s)))
+  | ["mmax", s] => (st, showOptKV (StdMap.max (getM st s)))
+  | ["msize", s] => (st, showI (StdMap.size (getM st s)))
+  | ["ment", s] =>
+    (st, "[" ++ ",".intercalate ((StdMap.entries (getM st s)).map fun (k, v) => s!"{k}:{v}") ++ "]")
+  | ["mkeys", d, s] => storeL st d (StdList.ofList (StdMap.keys (getM st s)))
+  | ["mmap", d, s, c] =>
+    storeM st d (some (StdMap.mapValues (fun _ v => Int.tmod (v + int c) 1000) (getM st s)))
+  | ["mall", s, p, c] => (st, showB (StdMap.forAll (predKV p (int c)) (getM st s)))
+  | ["many", s, p, c] => (st, showB (StdMap.«exists» (predKV p (int c)) (getM st s)))
+  -- sets
+  | ["sins", d, s, x] => storeS st d (StdSet.insert cmp (getS st s) (int x))
+  | ["srem", d, s, x] => storeS st d (StdSet.remove cmp (getS st s) (int x))
+  | ["shas", s, x] => (st, showB (StdSet.contains cmp (getS st s) (int x)))
+  | ["suni", d, a, b] =>
+    let x := getS st a; let y := getS st b
+    match StdSet.union cmp (fuelOf (StdSet.nodes x) (StdSet.nodes y)) x y with
+    | none => (st, "oof")
+    | some r => storeS st d r
+  | ["sint", d, a, b] => storeS st d (StdSet.intersection cmp (getS st a) (getS st b))
+  | ["sdif", d, a, b] => storeS st d (StdSet.diff cmp (getS st a) (getS st b))
+  | ["ssub", a, b] =>
+    let x := getS st a; let y := getS st b
+    match StdSet.subset cmp (fuelOf (StdSet.nodes x) (StdSet.nodes y)) x y with
+    | none => (st, "oof")
+    | some r => (st, showB r)
+  | ["sdis", a, b] =>
+    match StdSet.intersection cmp (getS st a) (getS st b) with
+    | none => die st
+    | some r => (st, showB (StdSet.isEmpty r))
+  | ["sspl", d1, d2, s, x] =>
+    match StdSet.split cmp (getS st s) (int x) with
+    | none => die st
+    | some (l, pres, r) =>
+      (setS (setS st d1 l) d2 r, s!"{dumpS l} {showB pres} {dumpS r}")
+  | ["sfil", d, s, p, c] => storeS st d (StdSet.filter (pred p (int c)) (getS st s))
+  | ["spar", d1, d2, s, p, c] =>
+    match StdSet.partition (pred p (int c)) (getS st s) with
+    | none => die st
+    | some (a, b) => (setS (setS st d1 a) d2 b, s!"{dumpS a} {dumpS b}")
+  | ["sfold", s] => (st, StdSet.fold (fun (acc : String) v => acc ++ s!"{v};") (getS st s) "")
+  | ["smin", s] => (st, showOptI (StdSet.min (getS st s)))
+  | ["smax", s] => (st, showOptI (StdSet.max (getS st s)))
+  | ["ssize", s] => (st, showI (StdSet.size (getS st s)))
+  | ["sels", d, s] => storeL st d (StdList.ofList (StdSet.elements (getS st s)))
+  | ["sfrl", d, l] => storeS st d (StdSet.fromList cmp (StdList.toList (getL st l)) .empty)
+  | ["sall", s, p, c] => (st, showB (StdSet.forAll (pred p (int c)) (getS st s)))
+  | ["sany", s, p, c] => (st, showB (StdSet.«exists» (pred p (int c)) (getS st s)))
+  | ["smap", d, s, mode, c] =>
+    let x := getS st s
+    match StdSet.map cmp (fun _ _ => false) (smapF mode (int c)) (fuelOf (StdSet.nodes x) (StdSet.nodes x)) x with
+    | none => (st, "oof")
+    | some r => storeS st d r
+  -- lists
+  | ["lcons", d, s, x] => storeL st d (.cons (int x) (getL st s))
+  | ["lof", d, x] => storeL st d (.cons (int x) .nil)
+  | ["lapp", d, a, b] => storeL st d (StdList.append (getL st a) (getL st b))
+  | ["lrev", d, s] => storeL st d (StdList.reverse (getL st s))
+  | ["lrap", d, a, b] => storeL st d (StdList.reverseAndAppend (getL st a) (getL st b))
+  | ["lfil", d, s, p, c] => storeL st d (StdList.filter (pred p (int c)) (getL st s))
+  | ["lmap", d, s, c] => storeL st d (StdList.map (fun x => Int.tmod x 1000 * 2 + int c) (getL st s))
+  | ["lfmp", d, s, p, c] =>
+    storeL st d (StdList.filterMap
+      (fun x => if pred p (int c) x then some (Int.tmod x 1000 + 1) else none) (getL st s))
+  | ["llen", s] => (st, showI (StdList.length (getL st s)))
+  | ["lfst", s] => (st, showOptI (StdList.first (getL st s)))
+  | ["lrst", d, s] =>
+    match StdList.rest (getL st s) with
+    | none => (setL st d .nil, "none")
+    | some r => (setL st d r, "some " ++ dumpL r)
+  | ["lfold", s] => (st, StdList.fold (fun (acc : String) x => acc ++ s!"{x};") (getL st s) "")
+  | ["lfdr", s] => (st, StdList.foldRight (fun x (acc : String) => acc ++ s!"{x};") (getL st s) "")
+  | ["lhas", s, x] => (st, showB (StdList.contains (int x) (fun a b => a == b) (getL st s)))
+  | ["lall", s, p, c] => (st, showB (StdList.forAll (pred p (int c)) (getL st s)))
+  | ["lany", s, p, c] => (st, showB (StdList.«exists» (pred p (int c)) (getL st s)))
+  | ["lfnd", s, p, c] => (st, showOptI (StdList.find (pred p (int c)) (getL st s)))
+  | ["lfdm", s, p, c] =>
+    (st, showOptI (StdList.findMap
+      (fun x => if pred p (int c) x then some (Int.tmod x 1000 * 2) else none) (getL st s)))
+  | ["lbnd", d, s, c] =>
+    storeL st d (StdList.bind (fun x => .cons x (.cons (Int.tmod x 1000 + int c) .nil)) (getL st s))
+  | ["lflt", d, a, b, c] =>
+    storeL st d (StdList.flatten (.cons (getL st a) (.cons (getL st b) (.cons (getL st c) .nil))))
+  | _ => (st, "bad-op")
+
+def run : IO Unit := runLoop ({} : St) step
+
+end Driver.C18
+
 def main (_args : List String) : IO UInt32 := do
-  IO.eprintln "drv-c18: not implemented yet"
-  return 2
+  Driver.C18.run
+  return 0
